@@ -947,6 +947,7 @@ type rlCloseCase struct {
 	Plain     bool
 	Blackhole bool
 	Reqs      []rlCloseReq
+	Dg        [2]bool // Config.EnableDatagrams of client, server
 }
 
 func (c rlCloseCase) String() string {
@@ -954,7 +955,7 @@ func (c rlCloseCase) String() string {
 	for _, q := range c.Reqs {
 		rs = append(rs, fmt.Sprintf("(%d,%d,%v)", q.Kind, q.Code, q.Immediate))
 	}
-	return fmt.Sprintf("close server=%v plain=%v blackhole=%v reqs=%s seed=%d", c.Server, c.Plain, c.Blackhole, strings.Join(rs, ""), c.Seed)
+	return fmt.Sprintf("close server=%v plain=%v blackhole=%v datagrams(c/s)=%v/%v reqs=%s seed=%d", c.Server, c.Plain, c.Blackhole, c.Dg[0], c.Dg[1], strings.Join(rs, ""), c.Seed)
 }
 
 func genCloseCase(r *u.Rng) rlCloseCase {
@@ -976,6 +977,14 @@ func genCloseCase(r *u.Rng) rlCloseCase {
 			q.Code = uint64(r.Intn(100000))
 		}
 		c.Reqs = append(c.Reqs, q)
+	}
+	switch r.Intn(4) {
+	case 0, 1:
+		c.Dg = [2]bool{true, true}
+	case 2:
+		c.Dg = [2]bool{false, true}
+	default:
+		c.Dg = [2]bool{true, false}
 	}
 	return c
 }
@@ -1007,7 +1016,7 @@ func runOneClose(c rlCloseCase, o *rlOut) {
 	err := inBubble(func() {
 		rtt := 20 * time.Millisecond
 		e, err := newSimEnv(simOpts{RTT: rtt, PlainPath: c.Plain,
-			ServerConf: &quic.Config{EnableDatagrams: true}, ClientConf: &quic.Config{EnableDatagrams: true}})
+			ServerConf: &quic.Config{EnableDatagrams: c.Dg[1]}, ClientConf: &quic.Config{EnableDatagrams: c.Dg[0]}})
 		if err != nil {
 			o.fail("runloop/env", err.Error())
 			return
@@ -1071,8 +1080,18 @@ func runOneClose(c rlCloseCase, o *rlOut) {
 		check("AcceptStream", e3)
 		_, e4 := target.AcceptUniStream(ctx)
 		check("AcceptUniStream", e4)
-		_, e5 := target.ReceiveDatagram(ctx)
-		check("ReceiveDatagram", e5)
+		// (ReceiveDatagram needs the own EnableDatagrams, SendDatagram the peer's; without it they refuse whatever the state)
+		own, peerOn := c.Dg[0], c.Dg[1]
+		if c.Server {
+			own, peerOn = c.Dg[1], c.Dg[0]
+		}
+		if own {
+			_, e5 := target.ReceiveDatagram(ctx)
+			check("ReceiveDatagram", e5)
+		}
+		if peerOn {
+			check("SendDatagram", target.SendDatagram([]byte("late")))
+		}
 		first := c.Reqs[0]
 		if first.Kind != quic.VerifErrNil && (ck != ak || cc != ac) {
 			o.fail("runloop/cause-vs-api", fmt.Sprintf("context cause %v differs from API error %v: %s", context.Cause(target.Context()), aerr, c.String()))
